@@ -434,8 +434,17 @@ theorem step_queueOK (t : Topo) (s : Sys) (st : Teardown.Step) (h : QueueOK t s)
         simp only
         have h1 : QueueOK t { s with inbox := fun x y => if x = w ∧ y = r then rest else s.inbox x y } := h
         exact flushReads_queueOK t w r _ _ (applyPrim_queueOK t _ wo _ h1)
+  | bwdLate wo =>
+    simp only [Teardown.step]
+    split
+    · exact h
+    · split
+      · exact h
+      · exact h
   | bwd wo =>
     simp only [Teardown.step]
+    split
+    · exact h
     cases t.consumer wo with
     | requester => exact h
     | node wi r =>
@@ -533,8 +542,17 @@ theorem upstream_step (t : Topo) (wi : WId) (r : RId) (wo : WId) (hl : t.listene
           unfold OwedEq at h ⊢
           have hne : ¬ (wi = w' ∧ r = r') := fun ⟨a, b⟩ => hsame ⟨a.symm, b.symm⟩
           simpa [hne] using h
+  | bwdLate wo' =>
+    simp only [Teardown.step]
+    split
+    · exact h
+    · split
+      · exact h
+      · exact h
   | bwd wo' =>
     simp only [Teardown.step]
+    split
+    · exact h
     cases hc' : t.consumer wo' with
     | requester => exact h
     | node wi' r' =>
@@ -782,8 +800,17 @@ theorem sealed_step (t : Topo) (w : WId) (r : RId) (wo : WId) (hl : t.listener w
           exact flush_sealed t w' r' w r wo hl _ _ (prim_sealed t _ wo' (.w (.write v)) w r wo hl h1)
         · simp only [setReads, hne', if_false]
           rw [flushReads_reads, applyPrim_reads]; exact hr
+  | bwdLate wo' =>
+    simp only [Teardown.step]
+    split
+    · exact ⟨h, hr⟩
+    · split
+      · exact ⟨h, hr⟩
+      · exact ⟨h, hr⟩
   | bwd wo' =>
     simp only [Teardown.step]
+    split
+    · exact ⟨h, hr⟩
     cases hc' : t.consumer wo' with
     | requester => exact ⟨h, hr⟩
     | node wi' r' =>
